@@ -328,52 +328,7 @@ def run_recipe(d, recipe, limit=120):
         return f"error:{type(e).__name__}:{str(e)[:160]}", files
 
 
-# ---------------------------------------------- what the recipe itself implies
-def recipe_facts(recipe):
-    """Facts derived from the recipe text only (never from the code under test):
-    for every (file, group) the producing step index and whether the collection has no
-    pixel by construction; whether a D2 input is present."""
-    empty = {}
-    producer = {}
-    streamed = {}     # produced through a chunk iterator that may yield nothing
-    for i, st in enumerate(recipe):
-        op = st["op"]
-        g = "/" + (st.get("group") or "").strip("/")
-        key = (st["out"], g)
-        if op == "create":
-            n = sum(len(c) for c in st["chunks"])
-            empty[key] = n == 0
-            producer[key] = i
-            streamed[key] = st["input"] in ("ordered", "unordered")
-        elif op in ("load", "cload"):
-            empty[key] = len(st["lines"]) == 0
-            producer[key] = i
-            streamed[key] = True
-        elif op == "merge":
-            empty[key] = all(empty.get((f, "/" + (gg or "").strip("/")), False) for f, gg in st["inputs"])
-            producer[key] = i
-            streamed[key] = True
-        elif op == "coarsen":
-            f, gg = st["in"]
-            empty[key] = empty.get((f, "/" + (gg or "").strip("/")), False)
-            producer[key] = i
-            streamed[key] = True
-        elif op == "zoomify":
-            e = all(empty.get((f, "/" + (gg or "").strip("/")), False) for f, gg in st["inputs"])
-            for r in st["resolutions"]:
-                k2 = (st["out"], f"/resolutions/{r}")
-                empty[k2] = e
-                producer[k2] = i
-                streamed[k2] = r not in st.get("base_resolutions", [])
-        elif op == "scool":
-            for name, recs in st["cells"].items():
-                k2 = (st["out"], f"/cells/{name}")
-                empty[k2] = len(recs) == 0
-                producer[k2] = i
-                streamed[k2] = False
-    return {"empty": empty, "producer": producer, "streamed": streamed}
-
-
+# ------------------------------------------------------- known-finding signatures
 def d2_input(step):
     """zero-based `cload pairs` with a position equal to its chromosome's length"""
     if step["op"] != "cload" or not step.get("zero_based"):
@@ -384,14 +339,12 @@ def d2_input(step):
 
 
 def signature_for(recipe, file, group, errs):
-    """known-finding signature decided from the *input* (recipe) and the error classes"""
+    """known-finding signature decided from the *input* (recipe) and the error classes:
+    D2 = a zero-based `cload pairs` position equal to its chromosome's length, and the only
+    thing wrong with the file is an out-of-range bin id"""
     classes = {c for c, _ in errs}
-    facts = recipe_facts(recipe)
-    key = (file, group)
     if classes <= {"range"} and any(d2_input(st) for st in recipe):
         return "pos-equals-chromlen-zero-based"
-    if classes <= {"length"} and facts["empty"].get(key) and facts["streamed"].get(key):
-        return "empty-stream-columns-not-truncated"
     return None
 
 
@@ -419,7 +372,11 @@ def nbins_of(widths):
 
 
 def rand_cells(rng, n, symm, shape=None):
-    """a set of matrix cells in one of several shapes; upper-triangular when symm"""
+    """a duplicate-free list of matrix cells in one of several shapes; upper-triangular when symm"""
+    return sorted(set(_rand_cells(rng, n, symm, shape)))
+
+
+def _rand_cells(rng, n, symm, shape=None):
     allc = [(i, j) for i in range(n) for j in range(n) if (i <= j or not symm)]
     shape = shape or rng.choice(["sparse", "sparse", "dense", "diag", "row", "lastrow", "empty", "gaprows", "one"])
     if shape == "empty":
